@@ -347,6 +347,7 @@ _used_sqrt = []
 _used_exp = []
 _used_log10 = []
 _used_log = []
+_used_pow = []
 
 
 def reset_trans():
@@ -354,6 +355,7 @@ def reset_trans():
     del _used_exp[:]
     del _used_log10[:]
     del _used_log[:]
+    del _used_pow[:]
 
 
 def trans_axioms():
@@ -376,6 +378,13 @@ def trans_axioms():
         ax.append(z3.Implies(x == 0, e == 1))
         ax.append(z3.Implies(x <= 0, e <= 1))
         ax.append(z3.Implies(x >= 0, e >= 1))
+    seen = set()
+    for x, y in _used_pow:
+        key = (x.get_id(), y.get_id())
+        if key in seen:
+            continue
+        seen.add(key)
+        ax.append(z3.Implies(x > 0, f_pow(x, y) > 0))
     for used, f in ((_used_log10, f_log10), (_used_log, f_log)):
         seen = set()
         for x in used:
@@ -445,6 +454,7 @@ def power(a, e):
         if ve == Fraction(-3, 2):
             s = val_of(sqrt(va))
             return mk(1 / (R(va) * s), nan)
+    _used_pow.append((R(va), R(ve)))
     return mk(f_pow(R(va), R(ve)), nan)
 
 
@@ -456,6 +466,15 @@ class Count:
 
     def __init__(self, mask):
         self.mask = mask
+
+    def cmp(self, op, other):
+        # the count is not related to anything else: comparisons are fresh symbolic booleans
+        # (sound: both outcomes are explored); cached so that repeated tests agree
+        cache = self.mask.__dict__.setdefault("_cnt_cmp", {})
+        key = (op, str(other))
+        if key not in cache:
+            cache[key] = fresh("cnt_cmp", "bool")
+        return cache[key]
 
     def __repr__(self):
         return "Count(%r)" % (self.mask,)
